@@ -152,18 +152,22 @@ def run(check, an: Analysis):
                   and e['exit'] == 'normal']
         if path.kind == 'return':
             value = path.outcome[1]
-            src = _unpacked_from_result(aw.fn)
-            ok = bool(waited) and isinstance(value, ast.Name) and src is not None and \
-                value.id == src[0]
+            ok = bool(waited) and value is not None and rules.value_text(
+                path, len(path.events) - 1, value) == 'self._result[0]'
             check.instance('A', 'await:returns-stored-result', ok, where_fn(aw.fn),
                            'after done, the first element of `_result` is returned',
                            path=rules.path_lines(path))
         elif path.kind == 'raise' and path.outcome[1].cls not in SIGNALS:
             event = [e for e in path.events if e.kind == 'raise'][-1]
-            src = _unpacked_from_result(aw.fn)
-            ok = bool(waited) and src is not None and isinstance(event.node.exc, ast.Name) \
-                and event.node.exc.id == src[1] and \
-                rules.fact_value(event, ('isnone', src[1])) is False
+            position = rules.event_index(path, event)
+            raised = event.node.exc
+            none_tests = [e for i, e in enumerate(path.events[:position])
+                      if e.kind == 'test' and e.get('key') and e['key'][0] == 'isnone'
+                      and rules.value_text(path, i, ast.parse(e['key'][1], mode='eval').body)
+                      == 'self._result[1]']
+            ok = bool(waited) and raised is not None and rules.value_text(
+                path, position, raised) == 'self._result[1]' and bool(none_tests) and \
+                key_truth(none_tests[-1]) is False
             check.instance('A', 'await:raises-stored-error', ok, event.where,
                            'after done, the stored exception is raised iff it is not None',
                            path=rules.path_lines(path))
@@ -260,9 +264,11 @@ def run(check, an: Analysis):
             if event.kind == 'handler' and event['exc'] == CANCEL_TASK:
                 stores = [e for e in path.events[index:] if e.kind == 'store'
                           and e['path'] == 'self._result']
-                ok = bool(stores) and stores[0]['value'] is not None and \
-                    '__transcript__' in ast.unparse(stores[0]['value']) and \
-                    _is_result_tuple(stores[0]['value'], None, None, None)
+                stored = rules.value_expr(path, rules.event_index(path, stores[0]),
+                                          stores[0]['value']) \
+                    if stores and stores[0]['value'] is not None else None
+                ok = stored is not None and '__transcript__' in ast.unparse(stored) and \
+                    _is_result_tuple(stored, None, None, None)
                 check.instance('K', 'wrapper:CancelTask->transcript', ok, event.where,
                                'a cancelled payload stores (None, err.__transcript__)',
                                path=rules.path_lines(path, index))
